@@ -109,6 +109,16 @@ CLAIMED = {
         '(implementation-side clauses only). Known findings: float floor of the grid length, fractional-step date drift, month-end drift.',
    technique='Coq proofs about rational/calendar grids (incl. finite sweeps lifted by forallb_forall) + in-Coq differential evaluation of ss.Time',
    design='5 C07'),
+ 'C16': dict(
+   text='Coq theorems about the GENERATED hazard tails for all units and all dt: per-step probability = rate x units x rel x step length in years for plain-number mortality, '
+        'births (number and time-parameter rates) and fertility; probability per year of step is independent of (unit, dt); the time-parameter mortality rate is multiplied by dt twice '
+        '(theorem + refutation witness); ageing by k x dt_year; age-bin lookup; routine-delivery conversion compounds to the annual value only when the sim unit is the year (R) and is '
+        'unit-blind otherwise. The real hazard functions are called over a (sim unit, dt) x (module unit, dt) x rate-form grid and compared with the model in Coq and with rate x step length.',
+   note='Trusted: Coq kernel, translator (isinstance(...TimePar) branches become a boolean parameter), harness (np.random.binomial intercepted to read the births probability). '
+        'R theorems use the standard real-number axioms. "Expected events per year" as a statistical statement is not a theorem. Known findings: double dt in Deaths with a TimePar rate '
+        '(pinned in baseline.json), unit-blind routine coverage.',
+   technique='Coq algebra over generated hazard expressions + in-Coq differential evaluation of the real hazard functions over a unit/dt grid',
+   design='5 C16'),
 }
 
 checks = []
